@@ -205,6 +205,13 @@ func genHashOps() string {
 				"return WrapHash(append(entries, hv.entries[idx+1:]...))") {
 			delShape = ".cutAtIndex"
 		}
+		// the same cut written with two copies into a slice of the final length
+		if is, ok := del.Body.List[0].(*ast.IfStmt); ok && is.Else == nil && is.Init != nil &&
+			src(is.Init) == "idx, ok := hv.valueIndex()[px.ToKey(key)]" && src(is.Cond) == "ok" && len(is.Body.List) == 4 &&
+			sameSrc(is.Body.List, "entries := make([]*HashEntry, len(hv.entries)-1)", "copy(entries, hv.entries[:idx])",
+				"copy(entries[idx:], hv.entries[idx+1:])", "return WrapHash(entries)") {
+			delShape = ".cutAtIndex"
+		}
 	}
 
 	da := fd("Hash", "DeleteAll")
